@@ -121,7 +121,7 @@ def _mk_factory(tag):
     return f
 
 
-V = {("v%d" % i): _mk_validator("v%d" % i) for i in range(40)}
+V = {("v%d" % i): _mk_validator("v%d" % i) for i in range(120)}
 F = {"f1": _mk_factory("f1"), "f2": _mk_factory("f2")}
 _V_BY_ID = {id(v): k for k, v in V.items()}
 _F_BY_ID = {id(v): k for k, v in F.items()}
@@ -459,7 +459,8 @@ def observe_class(cls, decorated):
         js = [j for j in range(len(fl)) if fl[j] is got]
         byname.append(js[-1] if js else None)
     # index access: tuple protocol
-    assert all(f[i] is fl[i] for i in range(len(fl)))
+    if not all(f[i] is fl[i] for i in range(len(fl))):
+        raise RuntimeError("index access differs from iteration")
     pos, kwo = [], []
     sig = inspect.signature(cls.__init__)
     for k, p in enumerate(sig.parameters.values()):
@@ -476,6 +477,14 @@ def observe_class(cls, decorated):
             "byname": byname,
             "fd_last": all(attr.fields_dict(cls)[a.name] is fl[max(j for j in range(len(fl)) if fl[j].name == a.name)]
                            for a in fl)}
+
+
+def safe_observe(cls, decorated):
+    """An introspection call that raises is itself an observation (no model output matches it)."""
+    try:
+        return observe_class(cls, decorated)
+    except Exception as e:  # noqa: BLE001
+        return {"err": "EOther", "exc": "introspection raised " + type(e).__name__}
 
 
 def exec_class(env, spec):
@@ -497,7 +506,7 @@ def exec_class(env, spec):
                 else "ESyntax" if t is SyntaxError else "EOther")
         return mro, {"err": name, "exc": t.__name__}
     env.classes[i] = cls
-    ob = observe_class(cls, spec["kind"] != "plain")
+    ob = safe_observe(cls, spec["kind"] != "plain")
     rev = {id(c): j for j, c in env.classes.items()}
     if mro is not None and [rev.get(id(c)) for c in cls.__mro__[1:-1]] != mro:
         raise vlib.Infra("C07 harness: probe MRO differs from the MRO of the created class K%d" % i)
@@ -546,10 +555,12 @@ def run_specs(specs, pairs, future):
             cls = env.classes.get(spec["id"])
             if cls is None or "err" in seen[k]:
                 continue
-            again = observe_class(cls, spec["kind"] != "plain")
+            again = safe_observe(cls, spec["kind"] != "plain")
             if again != seen[k]:
                 again["changed_later"] = True
-                if "match_args" in again:
+                if "err" in again:
+                    pass
+                elif "match_args" in again:
                     again["match_args"] = ["?changed after later class statements"] + again["match_args"]
                 else:
                     again["names"] = ["?changed after later class statements"] + (again["names"] or [])
@@ -558,7 +569,10 @@ def run_specs(specs, pairs, future):
         eqs = []
         for (x, y) in pairs:
             if x in env.classes and y in env.classes:
-                eqs.append(bool(attr.fields(env.classes[x]) == attr.fields(env.classes[y])))
+                try:
+                    eqs.append(bool(attr.fields(env.classes[x]) == attr.fields(env.classes[y])))
+                except Exception:  # noqa: BLE001 - comparison itself failed: reported as "unequal"
+                    eqs.append(None)
             else:
                 eqs.append(None)
         pairs_t = lst("(%d, %d)" % (x, y) for x, y in pairs)
